@@ -126,6 +126,16 @@ def specCheck (prop : String) (op res : List String) : String :=
     -- which the e2e stream compares with the implementation's solo runs)
     let bad := (hs.zip parts).filter fun (h, obs) => runE2E h != obs
     verdict bad.isEmpty ("outcome of a concurrently served RPC differs from its solo outcome (" ++ toString bad.length ++ " of " ++ toString hs.length ++ ")")
+  | "C20", ["schema_tables", _] =>
+    verdict (res.head? != some "DIFF") "tables or routing differ between two ways of loading the same schema"
+  | "C20", ["schema_grpc", _] =>
+    verdict (res.head? == some "same") "vanguardgrpc.NewTranscoder differs from the same services registered by name"
+  | "C20", ["schema_req", _] =>
+    let r := " ".intercalate res
+    if r.startsWith "DIFF" then "fail the same request has different outcomes depending on how the schema was loaded: " ++ (r.take 300).toString
+    else if (r.splitOn "PANIC").length > 1 then "fail panic while serving through a loading route"
+    else if r.startsWith "config-rejected" then "fail a loading route was rejected by NewTranscoder"
+    else "ok"
   | "C17", ["config", h] => specConfig h res
   | "C17", ["config_err", h] => specConfigErr h res
   | "C19", ["e2e_getpost", a, b] => specGetPost a b res
